@@ -1,6 +1,7 @@
 import TarpcModel.Driver.Show
 import TarpcModel.Monitors.Client
 import TarpcModel.Client.Settle
+import TarpcModel.Monitors.NoPanic
 /- Family `cli`: one client endpoint (dispatch + calls) over a SimTransport; the peer is the script. -/
 namespace TarpcModel.Driver
 open TarpcModel TarpcModel.Client
@@ -65,17 +66,18 @@ structure CliMon where
   c18 : Mon Unit := { st := () }
   maxInFlight : Nat := 1
   c02 : Option String := none
+  c16 : Option String := none
   garbled : Option String := none
 
 def CliMon.feed (m : CliMon) (e : CEv) : CliMon :=
-  { m with c01 := Mon.step checkC01 m.c01 e, c03 := Mon.step checkC03 m.c03 e, c05 := Mon.step checkC05 m.c05 e,
+  { m with c16 := m.c16.orElse (fun _ => match e with | .obs o => panicOf o | _ => none), c01 := Mon.step checkC01 m.c01 e, c03 := Mon.step checkC03 m.c03 e, c05 := Mon.step checkC05 m.c05 e,
            c09 := Mon.step checkC09 m.c09 e, c10 := Mon.step checkC10 m.c10 e,
            c11 := Mon.step (checkC11 m.maxInFlight) m.c11 e, c14 := Mon.step checkC14 m.c14 e,
            c18 := Mon.step checkC18 m.c18 e }
 
 def CliMon.verdict (m : CliMon) : Option String :=
   let fs := [("C01", m.c01.bad), ("C03", m.c03.bad), ("C05", m.c05.bad), ("C09", m.c09.bad), ("C10", m.c10.bad),
-             ("C11", m.c11.bad), ("C14", m.c14.bad), ("C18", m.c18.bad), ("C02", m.c02), ("PARSE", m.garbled)]
+             ("C11", m.c11.bad), ("C14", m.c14.bad), ("C18", m.c18.bad), ("C02", m.c02), ("C16", m.c16), ("PARSE", m.garbled)]
   let bad := fs.filterMap fun (p, b) => b.map fun w => s!"[{p}] {w}"
   if bad.isEmpty then none else some (" ;; ".intercalate bad)
 
